@@ -21,6 +21,7 @@ from .facts import render, strip
 from .linear import Lin, entails
 
 MAX_FACTS = 60
+_INLINE_DECL_BASE = 50_000_000       # engine/inline.py numbers the declarations of spliced helper bodies from here
 
 # writer APIs: (destination arg index, size arg index, size unit) ; size means "writes at most
 # size bytes starting at dst"
@@ -127,6 +128,7 @@ class BoundsAnalysis:
         self.field_bounds = {}   # struct member name -> (min, max) derived by the rule
         self.ret_summaries = {}
         self.pre_sites = {}      # key of a static callee -> {call node id: (frozenset of entry facts, {param index: capacity})}
+        self.size_floor = {}     # function key -> (index of its size parameter, least size every caller must offer)
         self._direct_sites = {}
 
     # ---- preconditions of file-local helpers, inferred from their call sites ---------------------
@@ -355,6 +357,34 @@ class BoundsAnalysis:
         self.ret_summaries[key] = res
         return res
 
+    def str_ret_summary(self, t):
+        """indices i of the string parameters of the program function t for which every non-NULL return hands back a
+        local string with strlen(result) <= strlen(arg_i), proved by the analysis of t itself"""
+        key = ('strret', t.key)
+        if key in self.ret_summaries:
+            return self.ret_summaries[key]
+        self.ret_summaries[key] = []
+        res = []
+        if is_ptr_ct(t.d.get('retCanon')) and 'char' in (t.d.get('retCanon') or '') and not t.cfg_error and t.params:
+            A = _FuncAnalysis(self, t, ())
+            A.collect_ret_states = []
+            A.collect_ret_nodes = []
+            A.run()
+            pairs = [(st, strip(nd)) for (st, v), nd in zip(A.collect_ret_states, A.collect_ret_nodes)
+                     if not (strip(nd).get('null') or nd.get('null') or strip(nd).get('v') == 0)]
+            if pairs and all(nd.k == 'DeclRefExpr' and nd['ref'].get('kind') == 'var' for st, nd in pairs):
+                for i, p in enumerate(t.params):
+                    ct = p['ct']
+                    if not ('*' in ct and 'char' in ct and ct.count('*') == 1):
+                        continue
+                    if any(k_ != 'decl' for k_, _ in def_sites(t, p['id'])):
+                        continue
+                    sp = Lin.sym(('strlen', ('decl', p['id']), p['name']))
+                    if all(A.entails(st, sp - Lin.sym(('strlen', ('decl', nd['ref']['id']), nd['ref']['name']))) for st, nd in pairs):
+                        res.append(i)
+        self.ret_summaries[key] = res
+        return res
+
     def alloc_out_summary(self, t):
         """k when the file-local function t returns NULL or (the start of) a block it allocated whose capacity is at
         least the non-negative value it stored through its integer out-parameter #k; else None"""
@@ -439,6 +469,11 @@ class BoundsAnalysis:
         if func.cfg_error:
             return []
         pre, caps = self.preconditions(func)
+        fl = self.size_floor.get(func.key) or self.size_floor.get(getattr(getattr(func, 'original', None), 'key', None))
+        if fl is not None and fl[0] < len(func.params):
+            # assumed here, demanded from every call site (contract-floor obligations)
+            p_ = func.params[fl[0]]
+            pre = list(pre) + [Lin.sym(('var', p_['id'], p_['name'])) - Lin.const(fl[1])]
         A = _FuncAnalysis(self, func, list(entry_facts) + list(pre))
         A.param_caps = {k: v for k, v in caps.items() if not isinstance(k, tuple)}
         for k, v in caps.items():
@@ -553,6 +588,20 @@ class _FuncAnalysis:
                                        Lin.sym(('end', key, 'end(str@%d)' % node.line)), render(node)[:30])
         return self.regions[key]
 
+    def _is_offset(self, n):
+        """the expression is used as a subscript or is added to a pointer: address arithmetic is modular as well, so
+        p[len - 1] with len == 0 is p[-1] whatever the type of len"""
+        p = getattr(n, 'parent', None)
+        while p is not None and p.k in ('ParenExpr', 'ImplicitCastExpr', 'CStyleCastExpr'):
+            n, p = p, getattr(p, 'parent', None)
+        if p is None:
+            return False
+        if p.k == 'ArraySubscriptExpr':
+            return len(p.ch) > 1 and p.ch[1] is n
+        if p.k == 'BinaryOperator' and p.get('op') in ('+', '-') and is_ptr_ct(p.get('ct')):
+            return True
+        return False
+
     # ---- expression -> Lin under a state -----------------------------------------------------
     def lin(self, node, st):
         n = strip(node)
@@ -599,6 +648,15 @@ class _FuncAnalysis:
                     es = self.elem_size(n.ch[0])
                     r = a - b
                     return r.scale(1) if es == 1 else Lin.sym(('opaque', n.id))
+                if op == '-' and not pa and not pb and st is not None and is_unsigned(n.get('ct')) and not self._is_offset(n):
+                    # an unsigned difference is the mathematical one only when it cannot wrap around: `size - 1 - used`
+                    # with used == size is a huge number, not -1
+                    d = a - b
+                    if d.is_const():
+                        return d if d.c >= 0 else Lin.sym(('opaque', n.id))
+                    if not self.entails(st, d):
+                        return Lin.sym(('opaque', n.id))
+                    return d
                 return a + b if op == '+' else a - b
             if op == '*':
                 a, b = self.lin(n.ch[0], st), self.lin(n.ch[1], st)
@@ -769,7 +827,13 @@ class _FuncAnalysis:
             for s in c.t:
                 if pred(s):
                     syms.add(s)
-        for s in syms:
+        syms = set(syms)
+        while syms:
+            # cheapest symbol first (fewest combinations): the order decides how large the intermediate systems get,
+            # and with that whether the cap below throws facts away
+            s = min(syms, key=lambda z: (sum(1 for c in cons if c.t.get(z, 0) > 0) * sum(1 for c in cons if c.t.get(z, 0) < 0),
+                                         repr(z)))
+            syms.discard(s)
             pos = [c for c in cons if c.t.get(s, 0) > 0]
             neg = [c for c in cons if c.t.get(s, 0) < 0]
             rest = [c for c in cons if c.t.get(s, 0) == 0]
@@ -1075,6 +1139,14 @@ class _FuncAnalysis:
                 # end(R) is by definition the terminator of the string as returned
                 sl0 = Lin.sym(('strlen', ('decl', vid), ref['name']))
                 new_facts += [reg.end - X - sl0, X + sl0 - reg.end]
+                tfn = self.prog.func(name, self.func.tu) if name else None
+                if tfn is not None:
+                    # a program function that returns a fresh string no longer than one of its arguments (a copy of a line)
+                    for ai in self.top.str_ret_summary(tfn):
+                        if ai + 1 < len(r.ch):
+                            sa = strip(r.ch[ai + 1])
+                            if sa is not None and not (sa.k == 'DeclRefExpr' and sa['ref'].get('id') == vid):
+                                new_facts.append(Lin.sym(('strlen', self.strkey(sa), render(sa))) - sl0)
                 val = None
             elif not is_ptr:
                 rf = self.call_result_facts(st, r, X)
@@ -1206,6 +1278,7 @@ class _FuncAnalysis:
                         continue
                     st = self.assign_var(st, ref, init, e)
                     self._note_ptr_def(st, ref, init)
+                    st = self._retire_inlined(st, init)
                 else:
                     st = self.kill_var(st, d['id'])
             return st
@@ -1214,7 +1287,7 @@ class _FuncAnalysis:
             if l.k == 'DeclRefExpr' and l['ref']['kind'] in ('var', 'parm'):
                 st = self.assign_var(st, l['ref'], e.ch[1], e)
                 self._note_ptr_def(st, l['ref'], e.ch[1])
-                return st
+                return self._retire_inlined(st, e.ch[1])
             return self.store(st, e, l)
         if k == 'CompoundAssignOperator':
             l = strip(e.ch[0])
@@ -1319,6 +1392,23 @@ class _FuncAnalysis:
                 self.collect_ptr_returns.append(idx)
             return st
         return st
+
+    def _retire_inlined(self, st, rhs):
+        """in an inlined view, `x = __ret_helper` is the last use of everything the spliced helper body declared (its
+        parameter copies, its locals, its result): eliminate those symbols, which turns the chain of equalities
+        through them into direct facts about the caller's own variables"""
+        r = strip(rhs)
+        if r is None or r.k != 'DeclRefExpr' or not str(r['ref'].get('name', '')).startswith('__ret_'):
+            return st
+        base = _INLINE_DECL_BASE
+        dead = lambda q: q[0] == 'opaque' or (q[0] == 'var' and isinstance(q[1], int) and q[1] >= base) or \
+            (q[0] == 'strlen' and isinstance(q[1], tuple) and q[1][0] == 'decl' and isinstance(q[1][1], int) and q[1][1] >= base)
+        if not any(dead(q) for f in st.facts for q in f.t):
+            return st
+        facts = self.project(self.saturate(st, dead), dead)
+        regions = frozenset((v, k) for v, k in st.regions if not (isinstance(v, int) and v >= base) and
+                            not (isinstance(v, tuple) and any(isinstance(z, int) and z >= base for z in v[1:])))
+        return State(facts, regions)
 
     def _in_param_string(self, st, v, reg):
         """(param index, is exactly the param) when v provably lies within [param, end of its string]"""
@@ -1454,7 +1544,15 @@ class _FuncAnalysis:
                                 'cannot prove index %s of %s is within %s%s' % (
                                     i, render(base), goals[0][1] if goals else 'an object of unknown capacity',
                                     '' if low else ' (or non-negative)'))
-            return self.kill_strlen_of_region(st, reg)
+            st2 = self.kill_strlen_of_region(st, reg)
+            sb = strip(base)
+            if es == 1 and i is not None and strip(e.ch[1]) is not None and strip(e.ch[1]).get('v') == 0 and \
+                    sb is not None and sb.k == 'DeclRefExpr' and sb['ref'].get('kind') in ('var', 'parm') and \
+                    not any(q[0] == 'strlen' for q in i.t) and self.entails(st, i):
+                # buf[i] = 0: whatever the string was, it now ends at i at the latest
+                sl = Lin.sym(('strlen', self.strkey(sb), render(sb)))
+                st2 = State(self.add(st2.facts, i - sl), st2.regions)
+            return st2
         if l.k == 'UnaryOperator' and l['op'] == '*':
             reg = self.region_of(l.ch[0], st)
             if (l.ch[0].get('ct') or '').replace(' ', '') in ('char**', 'char***', 'void**', 'constchar**'):
@@ -1704,6 +1802,19 @@ class _FuncAnalysis:
                     targets = [t for t in cs.targets if not isinstance(t, str)]
         if name and len(targets) == 1 and targets[0].internal:
             self.record_preconditions(st, e, targets[0], args)
+        floors = {}
+        for t in targets:
+            fl = self.top.size_floor.get(t.key)
+            if fl is not None and fl[0] < len(args):
+                floors[fl[0]] = max(fl[1], floors.get(fl[0], 0))
+        for si, least in floors.items():
+            n = self.lin(args[si], st)
+            ok = n is not None and self.entails(st, n - Lin.const(least))
+            self.oblige('write', e, 'floor %s(.., %s) >= %d' % (name or 'registry member', render(args[si])[:25], least), ok,
+                        'cannot prove that the size handed on (%s) is at least %d: the callee is analysed under that '
+                        'assumption (its own arithmetic on the size, such as size - 4, would wrap around below it)' % (
+                            render(args[si])[:40], least),
+                        how='every caller offers at least %d bytes' % least)
         seen_pairs = set()
         for t in targets:
             for bi, si in self.top.paired_params(t).items():
@@ -2180,6 +2291,13 @@ class _FuncAnalysis:
                     keep.add(g)
                     best[kf] = g.c
                     break
+            else:
+                # ... or without its (negative) constant: x - y - 5 >= 0 on one side, x - y >= 0 on both
+                if f.c < -2 and len(f.t) >= 2 and not (kf in best and best[kf] <= 0):
+                    g = Lin(dict(f.t), 0)
+                    if g not in keep and self.entails(a, g) and self.entails(b, g):
+                        keep.add(g)
+                        best[kf] = 0
         # sign of a variable that got different values on the two sides (a length clamped on one branch only)
         lost = set()
         for f in (fa | fb) - keep:
